@@ -51,6 +51,8 @@ def cases(tier, seed):
                 "cal": configs.CALS[(k // (3 * len(routes))) % 3],
                 # checkpoints inside a step only exist without clipping: three of four fixed-point cases run unclipped
                 "clip": (k // len(routes)) % 4 == 3,
+                # the 1/sqrt(N) correction of the MLE scale is an option: the covariances must follow the *reported* scale either way
+                "correct": (k // len(routes)) % 2 == 0,
                 "ts": rng.choice(["ts0", "ts1"]), "nu": nu, "relin": rng.random() < 0.5,
                 "init": rng.choice(["exact", "exact", "inexact"]), "damp": rng.choice([0.0, 0.0, 1e-2]),
                 "steps": steps, "field": field.to_json(), "inits": [[str(x) for x in blk] for blk in inits], "t0": str(t0),
@@ -224,7 +226,7 @@ def run_case(case):
     problem = {"name": "poly", "field": case["field"], "inits": case["inits"], "t0": case["t0"]}
     strategy = "fixedpoint" if route == "fixedpoint" else "fixedinterval"
     kw = dict(fact=fact, cal=cal, ts=case["ts"], nu=nu, problem=problem, init=case["init"], inexact_eps=1e-3,
-              relinearize=case["relin"])
+              relinearize=case["relin"], correct_underconfidence=case.get("correct", True))
     cfg = configs.build(strategy=strategy, **kw)
     d, n = cfg["d"], nu + 1
     t0 = cfg["prob"]["t0"]
